@@ -55,7 +55,7 @@ for _i, _t, _n in [
   ("C04", "The property's own 'equivalently' clause as an event order: writes are fsynced before success is reported / before the redo log is dropped, on every control "
           "path of write_wal, write_ht, Meta::write, recover, Sync::sync. Found and fixed: recover truncated the WAL without fsyncing the hash table.",
           "Bitbox + meta side only; beatree and seglog fsync discipline outside; torn sectors outside."),
-  ("C12", "On every control path of the four commit entry points the previous-root check precedes every effect. Found and fixed two genuine defects "
+  ("C12", "On every control path of the four commit entry points the previous-root check precedes every effect, no rejecting check follows an applied effect, and a changeset handed back by a deferred non-blocking commit is intact. Found and fixed two genuine defects "
           "(rollback delta appended / overlay marked committed before the check).", "Racing committers (schedules) outside."),
   ("C14", "No fallible I/O value is dropped uninspected in the listed functions; Store::commit poisons before returning an error. Found and fixed: "
           "write_ht ignored the result of every hash-table page write.", "Listed functions only; hangs and the beatree/rollback error paths outside."),
@@ -63,7 +63,7 @@ for _i, _t, _n in [
           "Beatree allocation discipline and seglog pruning outside."),
   ("C20", "The in-process half of directory exclusivity as an event order on every control path: store::create and Store::open hold the advisory lock "
           "(Flock::lock returned Ok) before any database file is created, opened, read or written and before the I/O pool starts; Flock::lock returns Ok only "
-          "on the success arm of try_lock_exclusive; Drop for Shared shuts the I/O pool down (channel closed, workers joined) before the lock is released.",
+          "on the success arm of try_lock_exclusive; the lock file is never removed, renamed or truncated; Drop for Shared shuts the I/O pool down (channel closed, workers joined) before the lock is released.",
           "The kernel's flock semantics, process death, the documented exists/empty TOCTOU before the lock on creation, and writers that bypass the I/O pool are outside. "
           "Replays: strace order of flock/openat, second open from a thread and a child process, completions held back across drop(handle)."),
 ]:
